@@ -90,12 +90,40 @@ CHECKS = {
             "Driven in-process through hook H4 (no sockets); TLS/HTTPS/QUIC front ends share handle_request and are not driven "
             "separately; precedence among several applicable error codes follows the code where the property leaves it open.",
             "DESIGN.md section 4 C11", "front"),
+    "C05": ("model_checking",
+            "TLA+ canonical-form operators (CanonRdata, RdataLess, CanonSet, SignedOwner, SignedData) and a sign/publish/verify "
+            "machine model-checked by TLC; TLC-enumerated RRsets with the expected field list replayed through TBS, the built-in "
+            "signer/verifier and a direct ring signature over the expected bytes; recorded random RRsets judged by a TLA+ monitor",
+            "Exhaustive model check of order-invariance and self/third-party verification over small RRsets (bytes, names, "
+            "wildcards, NSEC, MX; every permutation/duplication/recasing); every generated case is turned into real Records, "
+            "TBS bytes are compared with the serialisation of the expected field list, signed with every supported algorithm "
+            "by the built-in signer and by ring directly over the expected bytes, and verified by the built-in verifier; random "
+            "RRsets of many RDATA types are parsed back into fields and judged by Trace_Canonical.",
+            "Cryptographic primitives (ring) trusted; RSASHA1 is verify-only and not exercised as a signer; exhaustive refers "
+            "to the enumerated Gen spaces.",
+            "DESIGN.md section 4 C05", "canonical"),
+    "C06": ("model_checking",
+            "TLA+ machine of signature checking with a validation cache (cache lookup / key state / validity window in RFC 1982 "
+            "arithmetic / crypto / cache insert / clock advance / evict) model-checked by TLC; TLC-generated histories replayed "
+            "through DnssecDnsHandle with real keys on a virtual clock (hook H2); recorded histories and bit-flip sweeps judged "
+            "by a TLA+ monitor",
+            "Exhaustive model check of histories of validate/advance/evict over single-field variants of RRset, RRSIG and DNSKEY; "
+            "tens of thousands of generated histories are concretised with real Ed25519/ECDSA keys and run through "
+            "DnssecDnsHandle::send over a scripted upstream, projecting Record.proof and TTL; single-bit flips over the wire "
+            "images and clock placements at the window edges incl. u32 wrap are recorded and judged by Trace_SigCheck.",
+            "The property is an 'only if': NotSecure is never judged; a verdict served from the cache is attributed to the key "
+            "of the call that established it; crypto trusted; validator clock = RuntimeProvider::Timer, cache clock via hook H2.",
+            "DESIGN.md section 4 C06", "sigcheck"),
 }
 
 NOT_YET = {
 }
 
 ENGINES = [
+    {"name": "canonical", "path": "spec/Canonical.tla", "serves_properties": ["C05"],
+     "kind_free_text": "TLA+ spec (CanonicalForm, Canonical, MC_/Gen_/Trace_Canonical) + harness/src/bin/drive_canonical.rs"},
+    {"name": "sigcheck", "path": "spec/SigCheck.tla", "serves_properties": ["C06"],
+     "kind_free_text": "TLA+ spec (SigSerial, SigRules, SigCheck, MC_/Gen_/Trace_SigCheck) + harness/src/bin/drive_sigcheck.rs"},
     {"name": "auth", "path": "spec/AuthServer.tla", "serves_properties": ["C10"],
      "kind_free_text": "TLA+ spec (AuthNames, AuthAnswer, AuthAsIs, AuthZones, AuthServer, MC_/Gen_/Trace_AuthServer) + harness/src/bin/drive_auth.rs"},
     {"name": "front", "path": "spec/FrontDoor.tla", "serves_properties": ["C11"],
